@@ -1,0 +1,16 @@
+//go:build verif
+
+package hsmsss
+
+// Compiled only with the `verif` build tag: thin aliases over the two pure linktest reducers so an
+// external harness can fold generated observation histories through the real code.
+
+// VerifLinktestFailureStep is linktestFailureStep.
+func VerifLinktestFailureStep(suppress bool, recvNow, sentAt, inflight int64, fails int, recvAtLastFail int64) (int, int64, bool) {
+	return linktestFailureStep(suppress, recvNow, sentAt, inflight, fails, recvAtLastFail)
+}
+
+// VerifLinktestDisconnectRecheck is linktestDisconnectRecheck.
+func VerifLinktestDisconnectRecheck(suppress bool, inflight, recvNow, sentAt int64) bool {
+	return linktestDisconnectRecheck(suppress, inflight, recvNow, sentAt)
+}
